@@ -91,3 +91,5 @@ Proof.
   destruct (negb (port =? C_MDNS_PORT)), (last_second (n_cache n) now (dns_service s)); cbn [app fold_left];
     try reflexivity; destruct (intern_set (n_tbl n) (srv_answer s)) as [tbl a']; reflexivity.
 Qed.
+
+Print Assumptions srv_nstep.
